@@ -291,6 +291,52 @@ fn check_vec<T: PartialEq + std::fmt::Debug + Clone>(name: &str, rate: f64, sols
     None
 }
 
+/// The mutation rate is state (`MutationRate<T>`), adaptable after initialisation: with the state set to 0
+/// nothing may change whatever rate the component was constructed with. Returns the changed solutions.
+fn run_adapted_rate(which: u8, cfg_rate: f64) -> Result<Vec<String>, String> {
+    use mahf::components::mutation::MutationRate;
+    use mahf::identifier::Global;
+    macro_rules! go {
+        ($P:ty, $problem:expr, $T:ty, $c:expr, $sols:expr) => {{
+            let problem = $problem;
+            let sols = $sols;
+            let c: Box<dyn Component<$P>> = $c;
+            let pop: Vec<Individual<$P>> = sols.iter().map(|s| Individual::new(s.clone(), crate::subject::problems::so(1.0))).collect();
+            let mut st = state_with::<$P>(vec![pop]);
+            c.init(&problem, &mut st).map_err(|e| format!("init: {:#}", e))?;
+            c.require(&problem, &st.requirements()).map_err(|e| format!("require: {:#}", e))?;
+            st.set_value::<MutationRate<$T>>(0.0);
+            c.execute(&problem, &mut st).map_err(|e| format!("execute: {:#}", e))?;
+            let after: Vec<_> = st.populations().current().iter().map(|i| i.solution().clone()).collect();
+            Ok(sols.iter().zip(&after).filter(|(a, b)| format!("{:?}", a) != format!("{:?}", b)).map(|(a, b)| format!("{:?} -> {:?}", a, b)).collect())
+        }};
+    }
+    let reals = vec![vec![0.25, -0.5, 1.5], vec![1.0, 0.0, -1.0]];
+    let bits = vec![vec![true, false, true, true], vec![false, false, true, false]];
+    let perms = vec![vec![2usize, 0, 3, 1], vec![0, 1, 2, 3]];
+    match which {
+        0 => go!(RealP, realp(3), mu::NormalMutation<Global>, mu::NormalMutation::new::<RealP>(0.5, cfg_rate), reals),
+        1 => go!(RealP, realp(3), mu::UniformMutation<Global>, mu::UniformMutation::new::<RealP>(0.5, cfg_rate), reals),
+        2 => go!(RealP, realp(3), mu::PartialRandomSpread<Global>, mu::PartialRandomSpread::new::<RealP>(cfg_rate), reals),
+        3 => go!(BinP, BinP { dim: 4, instr: Instr::new() }, mu::BitFlipMutation<Global>, mu::BitFlipMutation::new::<BinP>(cfg_rate), bits),
+        4 => go!(BinP, BinP { dim: 4, instr: Instr::new() }, mu::PartialRandomBitstring<Global>, mu::PartialRandomBitstring::new::<BinP>(0.5, cfg_rate), bits),
+        _ => go!(TspP, tsp(4), mu::ScrambleMutation<Global>, mu::ScrambleMutation::new::<TspP>(cfg_rate), perms),
+    }
+}
+const ADAPTED: [&str; 6] = ["NormalMutation", "UniformMutation", "PartialRandomSpread", "BitFlipMutation", "PartialRandomBitstring", "ScrambleMutation"];
+
+fn check_adapted_rate(which: u8, cfg_rate: f64, out: &Outcome<Result<Vec<String>, String>>) -> Option<(String, String)> {
+    let head = format!("C13 op={} adapted-rate", ADAPTED[which as usize]);
+    let ctx = |w: String| format!("{} constructed with rate {}, MutationRate state set to 0 after init: {}", ADAPTED[which as usize], cfg_rate, w);
+    match out {
+        Outcome::Done(Ok(changed)) if changed.is_empty() => None,
+        Outcome::Done(Ok(changed)) => Some((format!("{} rate-zero-changed", head), ctx(format!("solutions changed: {:?}", changed)))),
+        Outcome::Done(Err(e)) => Some((format!("{} error", head), ctx(e.clone()))),
+        Outcome::Panic(m) => Some((format!("{} panic", head), ctx(format!("panicked: {}", m.chars().take(160).collect::<String>())))),
+        _ => None,
+    }
+}
+
 #[derive(Clone, Debug, PartialEq)]
 pub enum XOp {
     NPoint(usize),
@@ -756,6 +802,7 @@ fn check_ax(n: usize, alphas: &[f64], wide: bool) -> Vec<(String, String)> {
 
 pub fn run(rep: &mut Report) {
     let thorough = rep.tier == Tier::Thorough;
+    rep.alpha("mutation rate adapted through the MutationRate state after initialisation (6 operators x constructed rates {1, 1/2, 0}, state set to 0): nothing changes");
     rep.alpha("helpers: circular_swap/circular_swap2 on all permutations of length <= N with all tuples of >= 2 distinct indices; translocate_slice/translocate_slice2 on all non-empty ranges and all insertion indices; multi_point_crossover with all non-empty cut sets of size < n; uniform_crossover with all masks; arithmetic_crossover with alphas in {0,1/4,1/2,1}^n; cycle_crossover on all pairs of permutations");
     rep.alpha("components on populations of 1..3 solutions: SwapMutation(2<=k<=n), ScrambleMutation, InversionMutation, InsertionMutation, TranslocationMutation, Normal/Uniform/BitFlip/PartialRandomSpread/PartialRandomBitstring with rate in {0,1/2,1}, NPoint/Uniform/Arithmetic/Cycle crossover with pc in {0,1/2,1} x insert one/both x even/odd populations, DEMutation on well-formed populations, DE selection -> mutation -> binomial/exponential crossover pipelines");
     rep.assume("documented parameter ranges are taken from the doc comments (swap: at least two, not greater than the solution length; n-point crossover: 1 <= n < dimension)");
@@ -938,9 +985,36 @@ pub fn run(rep: &mut Report) {
     part.sample(json!({"case": format!("{:?}", cases[0])}));
     part.require_outcomes(10);
     rep.push(part);
+
+    // ---- rate adapted through the state after initialisation ----
+    let mut part = Part::new("components.adapted-rate");
+    for which in 0..ADAPTED.len() as u8 {
+        for cfg_rate in [1.0, 0.5, 0.0] {
+            let cfg = Cfg::prefix(&MENU4, 3, seed ^ (which as u64 * 31));
+            let body = || run_adapted_rate(which, cfg_rate);
+            tape::explore(&cfg, &body, &mut |prefix, out, _| {
+                part.transitions += 1;
+                part.traces += 1;
+                if let Some((s, d)) = check_adapted_rate(which, cfg_rate, out) {
+                    part.violate(s, d, json!({"adapted": which, "rate": cfg_rate, "tape": prefix, "seed": seed ^ (which as u64 * 31)}));
+                }
+            });
+            part.states += 1;
+            part.outcome(ADAPTED[which as usize].to_string());
+        }
+    }
+    part.sample(json!({"operator": "NormalMutation::new(0.5, 1.0)", "then": "MutationRate state := 0", "expected": "no gene changes"}));
+    rep.push(part);
 }
 
 pub fn replay(case: &Value) -> Result<Vec<(String, String)>, String> {
+    if let Some(w) = case["adapted"].as_u64() {
+        let rate = case["rate"].as_f64().unwrap_or(1.0);
+        let tape: Vec<u32> = case["tape"].as_array().ok_or("no tape")?.iter().map(|x| x.as_u64().unwrap() as u32).collect();
+        let cfg = Cfg::prefix(&MENU4, 3, case["seed"].as_u64().unwrap_or(0));
+        let (out, _) = tape::run_once(&cfg, &tape, || run_adapted_rate(w as u8, rate));
+        return Ok(check_adapted_rate(w as u8, rate, &out).into_iter().collect());
+    }
     if let Some(h) = case["helper"].as_str() {
         let us = |v: &Value| -> Vec<usize> { v.as_array().map(|a| a.iter().map(|x| x.as_u64().unwrap() as usize).collect()).unwrap_or_default() };
         return Ok(match h {
